@@ -1646,6 +1646,10 @@ def compile_try_expression(compiler, expr, root, body, catchers, orelse, finalbo
 
         if exceptions == "ALL":
             # Catch all exceptions.
+            if except_sym == Symbol("except*"):
+                compiler._syntax_error(
+                    catcher, "`except*` requires one or more exception types"
+                )
             types = Result()
         elif isinstance(exceptions, List):
             # [FooBar BarFoo] → Catch Foobar and BarFoo exceptions.
